@@ -106,6 +106,7 @@ def step (w : W) (toks : List String) : W × String :=
     match updateFull w.env (auth = "gov") w.pending with
     | some ns => ({ w with params := ns }, "ok")
     | none => (w, "err")
+  | ["d.update", "full-then-fail", _auth] => (w, "err")   -- rolled back whatever the update did
   | ["d.update", "sub", auth, isNil] =>
     let sub := if isNil = "1" then none else w.pending.head?
     match updateSub w.env (auth = "gov") w.params sub with
